@@ -9,7 +9,7 @@ use crate::engine::*;
 use crate::gen;
 use crate::profiles;
 use crate::props::c03::{scripts, sig_of_panic};
-use crate::rd::fnv64;
+use crate::rd::{fnv64, Rd};
 use crate::verifier::{self, Report};
 use crate::yrun::{self, End, RunCfg, Session};
 
@@ -419,6 +419,82 @@ fn compile_verify_run(src: &str, modules: &[(String, String)], run: bool) -> Che
 }
 
 impl C04 {
+    /// A generated program behind 64 KiB to 190 KiB of filler in the same chunk: every instruction of
+    /// the program then sits at a code offset that does not fit 16 bits (only jump *distances* are
+    /// limited to 16 bits). The padded program must pass the verifier and behave exactly like the
+    /// unpadded one.
+    fn far_pair(&self, bytes: &[u8]) -> Option<(String, String, Vec<(String, String)>)> {
+        let mut rd = Rd::new(bytes, 64);
+        let pad = match rd.below(4) {
+            0 => 65_500 + rd.below(80),
+            1 => 65_536 + rd.below(600),
+            2 => 66_000 + rd.below(66_000),
+            _ => 131_000 + rd.below(60_000),
+        };
+        let prof = match rd.below(3) {
+            0 => profiles::c08(),
+            1 => profiles::c06(),
+            _ => profiles::mixed(),
+        };
+        let rest = if bytes.len() > 8 { &bytes[8..] } else { &[][..] };
+        let (p, _) = gen::program(rest, prof);
+        crate::astutil::fix_lambda_names(&p);
+        let r = crate::prelude::run_program(&p, &crate::prelude::RefCfg::default());
+        if matches!(r.end, crate::prelude::RefEnd::Discard(_)) || !crate::props::diffprop::trigger_suffix(&r.events).is_empty() {
+            return None;
+        }
+        let (main, mods) = crate::pretty::render_program(&p, &[]);
+        let padded = format!("{}\n{}", filler(pad), main);
+        Some((main, padded, mods))
+    }
+
+    fn far_code(&self, ctx: &mut CaseCtx) -> Verdict {
+        let (plain, padded, mods) = match self.far_pair(ctx.bytes) {
+            Some(x) => x,
+            None => return Verdict::Discard("reference declined or recorded-defect shape"),
+        };
+        let a = compile_verify_run(&plain, &mods, true);
+        if matches!(&a.end, End::Err(ErrorKind::CompileError, m) if crate::diff::is_compile_error(m)) {
+            return Verdict::Discard("does not compile");
+        }
+        let b = compile_verify_run(&padded, &mods, true);
+        let show = |s: &str| if s.len() < 3000 { s.to_string() } else { format!("{} ...", &s[..s.char_indices().map(|(i, _)| i).take_while(|i| *i < 3000).last().unwrap_or(0)]) };
+        for (which, c) in [("plain", &a), ("padded", &b)] {
+            if let End::Panic(p) = &c.end {
+                return Verdict::Fail { sig: format!("panic:{}", sig_of_panic(p)), detail: format!("the {} program panicked: {}\n{}", which, p, show(&plain)) };
+            }
+        }
+        if let Some(rep) = &b.report {
+            if let Some(p) = rep.problems.first() {
+                return Verdict::Fail { sig: format!("verifier:{}", p.kind), detail: format!("behind {} bytes of filler: {}\n{}", padded.len() - plain.len(), p.detail, show(&plain)) };
+            }
+        }
+        if let Some(tp) = &b.trace_problem {
+            return Verdict::Fail { sig: "trace-height-mismatch".into(), detail: format!("behind filler: {}\n{}", tp, show(&plain)) };
+        }
+        let kind = |e: &End| match e {
+            End::Ok(_) => "Ok".to_string(),
+            End::Err(k, _) => format!("{:?}", k),
+            End::Panic(_) => "Panic".to_string(),
+        };
+        let norm = |v: &Vec<String>| v.iter().map(|s| yrun::normalise_addr(s)).collect::<Vec<_>>();
+        if norm(&a.out) != norm(&b.out) || kind(&a.end) != kind(&b.end) {
+            return Verdict::Fail {
+                sig: "code-offset-beyond-16-bits".into(),
+                detail: format!(
+                    "the same program prints {:?} and ends {} on its own, but prints {:?} and ends {} ({:?}) when {} bytes of no-op statements precede it in the chunk\n{}",
+                    a.out, kind(&a.end), b.out, kind(&b.end), b.end, padded.len() - plain.len(), show(&plain)
+                ),
+            };
+        }
+        ctx.label("far_code");
+        ctx.label_n("trace_pcs_checked", b.trace_checked);
+        if padded.contains("try") {
+            ctx.label("far_code_try");
+        }
+        Verdict::Pass { nontrivial: true, hash: fnv64(padded.as_bytes()) }
+    }
+
     fn source_for(&self, family: &str, bytes: &[u8]) -> Option<(String, Vec<(String, String)>, Option<Expect>, String)> {
         let idx = {
             let mut b = [0u8; 8];
@@ -482,11 +558,12 @@ impl Property for C04 {
             Family { name: "programs_triggers", kind: FamilyKind::Random { cases: if q { 10_000 } else { 100_000 }, max_len: 800 } },
             Family { name: "programs_classes", kind: FamilyKind::Random { cases: if q { 10_000 } else { 100_000 }, max_len: 800 } },
             Family { name: "programs_scopes", kind: FamilyKind::Random { cases: if q { 10_000 } else { 100_000 }, max_len: 800 } },
+            Family { name: "far_code", kind: FamilyKind::Random { cases: if q { 600 } else { 8_000 }, max_len: 600 } },
         ]
     }
 
     fn rule(&self) -> String {
-        "cases: (limits, exhaustive) one parameterised program per encoding limit at limit-1, limit, limit+1 (+2): forward jump distance for if/else/&&/||/while/try/break at 65534..65537 bytes with byte-exact filler, backward loop distance, call/method arguments, parameters (fn and lambda), vec/tuple/map elements and interpolation parts at 254..257, locals at 254..257, captured variables at 255..258, constants per chunk at 65535..65537, interpolation depth 7..9; operand sweep: functions whose code ends in an operand byte of every value 0..255 as local slot, argument count, element count and captured-variable index; (scripts) every script of the repository's corpus that compiles; (programs*) generated programs of the mixed/class/scope profiles, with and without recorded-defect shapes. Oracle: the bytecode verifier (abstract interpretation over every function: instruction boundaries, operand indices, one operand-stack height and one static handler stack per reachable pc, no pop below the frame base, final Return, line table length), the verifier's heights cross-checked against the interpreter's (chunk, pc, height) trace of the same run, no panic while running, and for the limit family the output or rejection known by construction. Non-trivial: a verified function with >=1 branch and height above its arity, or any limit instance; distinct by program text.".into()
+        "cases: (limits, exhaustive) one parameterised program per encoding limit at limit-1, limit, limit+1 (+2): forward jump distance for if/else/&&/||/while/try/break at 65534..65537 bytes with byte-exact filler, backward loop distance, call/method arguments, parameters (fn and lambda), vec/tuple/map elements and interpolation parts at 254..257, locals at 254..257, captured variables at 255..258, constants per chunk at 65535..65537, interpolation depth 7..9; operand sweep: functions whose code ends in an operand byte of every value 0..255 as local slot, argument count, element count and captured-variable index; (scripts) every script of the repository's corpus that compiles; (programs*) generated programs of the mixed/class/scope profiles, with and without recorded-defect shapes; (far_code) generated programs of the exception, scope and mixed profiles placed behind 64-190 KiB of no-op statements in the same chunk, so that every code offset of the program exceeds 16 bits: verified, and run next to the unpadded program, whose printed values and outcome it must reproduce. Oracle: the bytecode verifier (abstract interpretation over every function: instruction boundaries, operand indices, one operand-stack height and one static handler stack per reachable pc, no pop below the frame base, final Return, line table length), the verifier's heights cross-checked against the interpreter's (chunk, pc, height) trace of the same run, no panic while running, and for the limit family the output or rejection known by construction. Non-trivial: a verified function with >=1 branch and height above its arity, or any limit instance; distinct by program text.".into()
     }
 
     fn assumptions(&self) -> Vec<String> {
@@ -497,6 +574,12 @@ impl Property for C04 {
     }
 
     fn render(&self, family: &str, bytes: &[u8]) -> String {
+        if family == "far_code" {
+            return match self.far_pair(bytes) {
+                Some((plain, padded, _)) => format!("// preceded in the same chunk by {} bytes of `nil;` statements\n{}", padded.len() - plain.len() - 1, plain),
+                None => "<declined>".into(),
+            };
+        }
         match self.source_for(family, bytes) {
             Some((src, _, exp, name)) => {
                 let mut s = src;
@@ -515,6 +598,9 @@ impl Property for C04 {
 
     fn run(&self, ctx: &mut CaseCtx) -> Verdict {
         let family = ctx.family.to_string();
+        if family == "far_code" {
+            return self.far_code(ctx);
+        }
         let (src, mods, expect, name) = match self.source_for(&family, ctx.bytes) {
             Some(x) => x,
             None => return Verdict::Discard("no such case"),
@@ -592,7 +678,7 @@ impl Property for C04 {
     }
 
     fn floors(&self, _tier: Tier) -> Vec<(&'static str, u64)> {
-        vec![("functions_verified", 20_000), ("trace_pcs_checked", 1_000_000), ("limit_rejected", 20), ("limit_accepted", 30)]
+        vec![("functions_verified", 20_000), ("trace_pcs_checked", 1_000_000), ("limit_rejected", 20), ("limit_accepted", 30), ("far_code", 300), ("far_code_try", 100)]
     }
 
     fn extra_coverage(&self, labels: &std::collections::BTreeMap<String, u64>) -> Vec<(String, serde_json::Value)> {
